@@ -225,6 +225,15 @@ def run(rep, tier):
             for i in range(nf):
                 got = outs.get(8 * i)
                 exp = ('arg', i)
+                if got is not None and strip_num(got) != exp and h.meta.get("alloc"):
+                    # path-dependent but possibly equal (`n == m ? m : n`): decided over all orderings of the two counts and 0
+                    oc = ir.ord_compare(got, exp)
+                    if oc:
+                        continue
+                    if oc is None:
+                        rep.undecided("C17.c %s: configuration field %s reads back as %s; not decided whether that is argument %d on every path" % (inst, h.args[i][1], ir.show(got)[:200], i))
+                        good = None
+                        continue
                 if got is None or strip_num(got) != exp:
                     role = h.args[i][1]
                     rep.fail("C17.c", "%s field %s" % (inst, role), file, "configuration field %s reads back as %s" % (role, ir.show(got) if got else "unwritten"))
